@@ -16,7 +16,8 @@ PATS = ["password", "credential", "credentials", "secret", "token", "key"]
 def gen_names(rng, n, defs_names):
     out = []
     for d in defs_names:
-        out += [d, d.upper(), d.title(), d + ".x", "x." + d, d[:-1]]
+        out += [d, d.upper(), d.title(), d + ".x", "x." + d, d[:-1],
+                " " + d, d + " ", "\t" + d, " " + d.upper() + " "]   # a handler that normalises the name it looks up must also normalise the name it tests
     out += ["ego.server.token", "EGO.SERVER.TOKEN", "my.password", "my.PASSWORD", "x.credentials", "x.Credential",
             "ego.server.plaintext.passwords", "ego.compiler.optimize", "a", "passwor", "secre", "credentia",
             "SECRET", "pass.word", "********", "ego.server.default.credentials"]
